@@ -1,16 +1,26 @@
 """C17 - DEN service repeats an event's DENM on schedule with a stable, unique identity.
 
-Decides: the GeoBroadcast request built for every DENM (circle sub-type, area centre = the event position of the very
-message that is encoded, port 2002, DENM security profile / ITS-AID 37); the counting-loop idiom of the repetition
-(ceil(T / i) transmissions, the first one before any wait); where station identity and the action identifier's sequence
-number come from (loop-invariant per request, advanced once per request, from state that outlives the message object);
-the LDM feed on reception (every decoded message fed, event position forwarded field by field, decoded message stored,
-provider registered); conformance of every DENM value to the DENM ASN.1 module (shared engine with C11).
+Decides: the GeoBroadcast request built for every DENM (area: payload = the DENM coder's encoding of the message,
+length = len(payload), GEOBROADCAST / circle sub-type, area centre = the event position of the very message that is
+encoded, constant positive radius, port 2002, BTP-B, DENM security profile / ITS-AID 37, one unconditional hand-over to
+BTP); the counting-loop idiom of the repetition (count: ceil(T / i) repetitions for every T and i, counter invariant,
+exactly one unconditional transmission per repetition and none outside, the transmission before the wait, wait = the
+request's interval, every repetition sending a message rebuilt from the same request and the vehicle data, one thread
+per request); where station identity and the action identifier's sequence number come from (identity: stationId and
+originatingStationId from the vehicle data and sequenceNumber from the message's own field, always stored; that field
+fed by the manager's counter - state that outlives the message object -, drawn before the loop so all repetitions share
+it, the counter advanced by one once per event, read-and-advance in one critical section); the LDM feed on reception
+(feed: listens on port 2002, every received DENM decoded and fed, location = the event position field by field, the
+decoded message itself stored under the DENM application id and handed to IF.LDM.3 whenever an LDM is attached,
+provider registered, and the record stamped at RECEPTION - its timestamp is the current time, not a time copied from
+the message, which would expire a DENM about an ongoing event on arrival); conformance to the DENM ASN.1 module of the
+elements this property speaks about - identity, reference / detection time, event position, every store of
+fullfill_with_vehicle_data, no float-typed value at an INTEGER position, reader subscripts (schema, shared engine with
+C11).
 Does not decide cadence ("every i") nor non-decreasing reference times - clock / timing.
 
-Every rule works on resolved calls (which class / method a call reaches), arguments bound to parameter names, values
-expanded through the flow of locals, guard atoms in force at a call, and canonical expression forms - never on the
-spelling of the source.
+Every rule works on resolved calls, arguments bound to parameter names, values expanded through the flow of locals,
+guard atoms in force at a call and canonical expression forms - never on the spelling of the source.
 """
 from __future__ import annotations
 
